@@ -1,8 +1,119 @@
-/- line-protocol handlers for C05 (stub: not built yet) -/
+/- line-protocol handlers for C05 (entanglement criteria: index layer on Gaussian integers, verdict layer on rationals) -/
 import Driver.Loop
+import NumqiModel.Entangle
+import NumqiModel.Decision
 
 namespace Numqi.Driver.C05
+open Numqi Numqi.Ent
 
-def handle (_args : List String) : String := "bad-op"
+/-- `"p/q"` or `"p"` ↦ rational -/
+def parseRat? (s : String) : Option Rat :=
+  match s.splitOn "/" with
+  | [a] => do let x ← a.toInt?; pure (x : Rat)
+  | [a, b] => do
+      let x ← a.toInt?
+      let y ← b.toNat?
+      if y = 0 then none else pure (mkRat x y)
+  | _ => none
+
+/-- matrix read-out of a flat array of `N*N` entries -/
+def matOf (N : Nat) (a : Array GInt) : Nat → Nat → GInt := fun r c => a.getD (r * N + c) 0
+
+def dumpMat (rows cols : Nat) (m : Nat → Nat → GInt) : String :=
+  gintListStr ((List.range rows).flatMap fun r => (List.range cols).map fun c => m r c)
+
+def validDims (dim : List Nat) : Bool := dim.length ≥ 2 && dim.all (· ≥ 2)
+
+def natsStr (l : List Nat) : String := ",".intercalate (l.map toString)
+
+/-- min over the diagonal; `none` if some off-diagonal entry is non-zero or an entry is not real -/
+def diagMin? (N : Nat) (m : Nat → Nat → GInt) : Option Int := Id.run do
+  let mut best : Option Int := none
+  for r in List.range N do
+    for c in List.range N do
+      let v := m r c
+      if r = c then
+        if v.im ≠ 0 then return none
+        best := match best with
+          | none => some v.re
+          | some b => some (min b v.re)
+      else if v ≠ 0 then return none
+  return best
+
+/-- the single non-zero entry of a matrix (`some 0` if all are zero, `none` if more than one) -/
+def singleEntry? (rows cols : Nat) (m : Nat → Nat → GInt) : Option GInt := Id.run do
+  let mut found : Option GInt := none
+  for r in List.range rows do
+    for c in List.range cols do
+      let v := m r c
+      if v ≠ 0 then
+        match found with
+        | none => found := some v
+        | some _ => return none
+  return some (found.getD 0)
+
+def handle (args : List String) : String :=
+  match args with
+  | ["gpptlist", n] => Id.run do
+      let some n := n.toNat? | return "bad-op"
+      if n < 2 || n > 6 then return "bad-op"
+      return "|".intercalate ((gpptDimList n).map fun (d0, d1) => natsStr d0 ++ ":" ++ natsStr d1)
+  | [op, dims, ents] => Id.run do
+      let some dim := parseNatList? dims | return "bad-op"
+      let some e := parseGIntList? ents | return "bad-op"
+      if !validDims dim then return "bad-op"
+      let N := prodL dim
+      if e.length ≠ N * N then return "bad-op"
+      let ρ := matOf N e.toArray
+      match op with
+      | "ppt" =>
+          return "|".intercalate ((List.range dim.length).map fun i => dumpMat N N (pptMatrix dim i ρ))
+      | "red" =>
+          return "|".intercalate ((List.range dim.length).map fun i => dumpMat N N (reductionMatrix dim i ρ))
+      | "gppt" =>
+          return "|".intercalate ((gpptDimList dim.length).map fun (d0, d1) =>
+            let rows := gpptRows dim d0
+            toString rows ++ ":" ++ dumpMat rows (N * N / rows) (gpptMatrix dim d0 d1 ρ))
+      | "swap" =>
+          match dim with
+          | [d, d'] => if d ≠ d' then return "bad-op" else return toString (swapValue d ρ).re  -- `.real`
+          | _ => return "bad-op"
+      | "ptb" =>
+          match dim with
+          | [dA, dB] => return dumpMat N N (ptB dA dB ρ)
+          | _ => return "bad-op"
+      | _ => return "bad-op"
+  | [op, dims, eps, ents] => Id.run do
+      let some dim := parseNatList? dims | return "bad-op"
+      let some eps := parseRat? eps | return "bad-op"
+      let some e := parseGIntList? ents | return "bad-op"
+      if !validDims dim then return "bad-op"
+      let N := prodL dim
+      if e.length ≠ N * N then return "bad-op"
+      let ρ := matOf N e.toArray
+      let b2s := fun (b : Bool) => if b then "1" else "0"
+      match op with
+      | "vppt" =>
+          let l := (List.range dim.length).map fun i => diagMin? N (pptMatrix dim i ρ)
+          if l.any Option.isNone then return "bad-op"
+          return b2s (l.all fun m => isPptAccept eps ((m.getD 0 : Int) : Rat))
+      | "vred" =>
+          let l := (List.range dim.length).map fun i => diagMin? N (reductionMatrix dim i ρ)
+          if l.any Option.isNone then return "bad-op"
+          return b2s (l.all fun m => reductionAccept eps ((m.getD 0 : Int) : Rat))
+      | "vgppt" =>
+          -- `eps` is the `threshold` keyword; only matrices with a single non-zero (real) entry, where the nuclear norm is |entry|
+          let l := (gpptDimList dim.length).map fun (d0, d1) =>
+            let rows := gpptRows dim d0
+            singleEntry? rows (N * N / rows) (gpptMatrix dim d0 d1 ρ)
+          if l.any Option.isNone then return "bad-op"
+          if l.any (fun v => (v.getD 0).im ≠ 0) then return "bad-op"
+          return b2s (l.all fun v => gpptAccept eps (((v.getD 0).re.natAbs : Int) : Rat))
+      | "vswap" =>
+          match dim with
+          | [d, d'] => if d ≠ d' then return "bad-op" else return b2s (swapAccept eps (((swapValue d ρ).re : Int) : Rat))
+          | _ => return "bad-op"
+      | _ => return "bad-op"
+  | _ => "bad-op"
 
 end Numqi.Driver.C05
